@@ -367,8 +367,18 @@ func (v AudioSamplingRate) String() string {
 
 // Parse the FLV sampling rate to Hz.
 func (v AudioSamplingRate) ToHz() int {
-	flvSR := []int{5512, 11025, 22050, 44100}
-	return flvSR[v]
+	switch v {
+	case AudioSamplingRate5kHz:
+		return 5512
+	case AudioSamplingRate11kHz:
+		return 11025
+	case AudioSamplingRate22kHz:
+		return 22050
+	case AudioSamplingRate44kHz:
+		return 44100
+	default:
+		return 0
+	}
 }
 
 // For FLV, convert aac sample rate index to FLV sampling rate.
@@ -393,8 +403,20 @@ func (v *AudioSamplingRate) From(a aac.SampleRateIndex) {
 
 // Parse the Opus sampling rate to Hz.
 func (v AudioSamplingRate) OpusToHz() int {
-	opusSR := []int{8000, 12000, 16000, 24000, 48000}
-	return opusSR[v]
+	switch v {
+	case AudioSamplingRateNB8kHz:
+		return 8000
+	case AudioSamplingRateMB12kHz:
+		return 12000
+	case AudioSamplingRateWB16kHz:
+		return 16000
+	case AudioSamplingRateSWB24kHz:
+		return 24000
+	case AudioSamplingRateFB48kHz:
+		return 48000
+	default:
+		return 0
+	}
 }
 
 // For Opus, convert aac sample rate index to FLV sampling rate.
